@@ -70,7 +70,7 @@ def run_C01(ctx):
     corr_run(ctx, "jumpdest", ["jumpdest", "--n", n_cases(ctx, 40, 500)],
              "Model/JumpDest.v (the byte-level bit-vector analysis) vs the JUMP instruction: codes dense in PUSH opcodes of every width and JUMPDEST bytes, truncated pushes at the end; "
              "every destination 0..len+40 and huge words", nontrivial=lambda c: c.get("byte_is_jumpdest", False))
-    corr_run(ctx, "memsize", ["memsize", "--n", n_cases(ctx, 60, 2500)],
+    corr_run(ctx, "memsize", ["memsize", "--n", n_cases(ctx, 150, 2500)],
              "Model/MemSize.v (which operands name a memory region, calcMemSize64, rounding to words) vs the memory length successive instructions of a frame see, "
              "generated executions on all 13 rule sets + memory-walk programs", nontrivial=lambda c: c.get("memory_after", 0) > c.get("memory_before", 0), has_oracle=True, oracle_prefix="C01")
     ref_run(ctx, "diffref", ["diffref", "--n", n_cases(ctx, 700, 15000)],
